@@ -212,7 +212,11 @@ void AsyncPipe::Impl::cleanup()
     if (!inited_)
         return;
 
-    stop_signal_ = true;
+    {
+        //! stop_signal_ 由后台线程在 full_buffers_mutex_ 保护下读取，写也必须在同一把锁内
+        std::lock_guard<std::mutex> lg(full_buffers_mutex_);
+        stop_signal_ = true;
+    }
     full_buffers_cv_.notify_all();
     backend_thread_.join();
     stop_signal_ = false;
